@@ -1057,6 +1057,21 @@ def corpus_c10(tier):
     for i in range(n // 4):
         c = fam_mem(2000 + i)
         cases.append({"id": f"omem-{i:04d}", "family": "omem", "kind": "equiv", "pairs": _opt_pair(c["stmts"]), "params": {"K": 4}})
+    # every hand-written shape of the other properties' fixed families, as an optimised / unoptimised pair
+    def pairs_of(fam, prefix, quick_every):
+        for j, c in enumerate(fam):
+            if c.get("kind", "stateless") not in ("stateless",):
+                continue
+            if tier == "quick" and j % quick_every:
+                continue
+            cases.append({"id": f"{prefix}{c['id']}", "family": "ofixedother", "kind": "equiv", "pairs": _opt_pair(c["stmts"])})
+
+    pairs_of(fam_expr_fixed(), "o", 5)
+    pairs_of(fam_bundle_fixed(), "o", 12)
+    pairs_of(fam_entity_fixed(), "o", 6)
+    pairs_of(fam_naming_fixed(), "o", 3)
+    pairs_of(fam_func_fixed(), "o", 3)
+    pairs_of(fam_loop16_fixed(), "o", 4)
     # several cells (shared / repeated enables) and free-running loops: each build must satisfy the same reference
     for c in fam_mem_fixed():
         cases.append({"id": "o" + c["id"], "family": "omemfixed", "kind": "equiv", "pairs": _opt_pair(c["stmts"]), "params": {"K": 4}})
@@ -1133,6 +1148,10 @@ def corpus_c12(tier):
         return [["input", "a", "signal-A", 10007], ["sig", "x", ["bin", "*", V("a"), ["lit", "signal-B", K(k)]]], ["sig", "y", ["proj", ["bin", "*", ["bin", "+", V("a"), ["lit", "signal-A", K(10)]], K(mul)], "signal-X"]]]
     cases.append(_pq_case("pq-same-inline-literal", litprog(3, 2), litprog(3, 2), random.Random("pq-lit"), 3))
     cases.append(_pq_case("pq-same-inline-literal-2", litprog(3, 2), litprog(3, 5), random.Random("pq-lit2"), 2, same_sentinels=True))
+    step = 6 if tier == "quick" else 2
+    for j, c in enumerate(fam_expr_fixed()):
+        if j % step == 0 and c["id"] not in ("fixed-many",):
+            cases.append(_pq_case(f"pq-twin-{c['id'][6:]}", c["stmts"], c["stmts"], random.Random(f"pq-twin-{j}"), 2, same_sentinels=True, builds=(OPT,)))
     # P and Q textually the same program with the SAME declared input values (only the names differ)
     for a in ("fixed-op-*", "fixed-opk-+", "fixed-reuse", "fixed-cond->", "fixed-cmp-<", "fixed-int-var", "fixed-multi-out", "fixed-sel-pattern"):
         rnd = random.Random(f"pq-same-{a}")
